@@ -50,41 +50,14 @@ Print Assumptions C06_conn_closed_is_final.
 (* The clause at full strength, for every code path: REFUTED by Conn.ApiVersions, which returns
    a read error on the response body without closing the connection (conn.go, ApiVersions:
    `return nil, err` after waitResponse; compare Conn.do). *)
-Definition C06_conn_abandon_closes_full_statement : Prop :=
-  forall ls s, run init ls = Some s ->
-  forall t e, ph (thr s t) = Failed e -> e <> ENoProgress -> closed s = true.
-
-Definition apiversions_witness : list label :=
-  [Enter 1 KApiVersions; LockW 1; Send 1 true true; Arrive 1; LockR 1; PeekOwn 1;
-   Deadline 1;                                   (* time-out in the middle of the body *)
-   Enter 2 KDo; LockW 2; Send 2 true true; LockR 2;
-   PeekGarbage 2;                                (* the left-over bytes carry id 2 *)
-   ReadDone 2 ROk]%nat.
-
 Theorem C06_conn_abandon_closes_apiversions_refuted :
   exists ls s t, run init ls = Some s /\ ph (thr s t) = Failed ERead /\ closed s = false /\
                  misaligned s = true.
-Proof.
-  exists (firstn 7 apiversions_witness).
-  eexists. exists 1%nat. vm_compute. repeat split; reflexivity.
-Qed.
+Proof. exact apiversions_abandon_witness. Qed.
 Print Assumptions C06_conn_abandon_closes_apiversions_refuted.
 
 Theorem C06_conn_abandon_closes_full_refuted : ~ C06_conn_abandon_closes_full_statement.
-Proof.
-  intros H.
-  assert (X : closed {| next_id := 1; nsend := 1; inflight := 0; wire := []; rlock := None;
-     wlock := None; closed := false; misaligned := true;
-     threads := [(1%nat, mkThread (Failed ERead) KApiVersions 1 1 true (Some (mkFrame 1 1%nat)));
-                 (1%nat, mkThread Reading KApiVersions 1 1 true (Some (mkFrame 1 1%nat)));
-                 (1%nat, mkThread Peeking KApiVersions 1 1 true None);
-                 (1%nat, mkThread Waiting KApiVersions 1 1 true None);
-                 (1%nat, mkThread WLocked KApiVersions 0 0 false None);
-                 (1%nat, mkThread Entered KApiVersions 0 0 false None)];
-     answered := [1%nat]; consumed := [mkFrame 1 1%nat] |} = true).
-  { apply (H (firstn 7 apiversions_witness) _ eq_refl 1%nat ERead); [reflexivity|discriminate]. }
-  discriminate X.
-Qed.
+Proof. exact abandon_full_refuted. Qed.
 Print Assumptions C06_conn_abandon_closes_full_refuted.
 
 (* Consequence: bytes left over from the abandoned ApiVersions exchange are delivered to a
@@ -93,9 +66,7 @@ Print Assumptions C06_conn_abandon_closes_full_refuted.
 Theorem C06_conn_stale_delivery_refuted :
   exists ls s t, run init ls = Some s /\ ph (thr s t) = Done ROk /\ got (thr s t) = None /\
                  closed s = false.
-Proof.
-  exists apiversions_witness. eexists. exists 2%nat. vm_compute. repeat split; reflexivity.
-Qed.
+Proof. exact stale_delivery_witness. Qed.
 Print Assumptions C06_conn_stale_delivery_refuted.
 
 (* ======================= Transport (Model/TransportPool.v) ======================= *)
@@ -155,8 +126,8 @@ Example pool_nonvacuous :
                     Connect 2 0; HandOff 2; CWrite 1 true; BAnswer 1 2; CRead 1; CRelease 1;
                     Await 2]%nat with
   | Some s => (Nat.eqb (q_outcome (rq s 0%nat)) 3 && Nat.eqb (q_outcome (rq s 1%nat)) 3 &&
-               Nat.eqb (q_outcome (rq s 2%nat)) 1 && q_own 2 (rq s 2%nat) &&
-               Nat.eqb (length (idle s)) 1)%bool
+               Nat.eqb (q_outcome (rq s 2%nat)) 1 && q_own 2%nat (rq s 2%nat) &&
+               Nat.eqb (length (idle s)) 1%nat)%bool
   | None => false
   end = true.
 Proof. vm_compute. reflexivity. Qed.
